@@ -539,6 +539,49 @@ func checkC08(c *Ctx) {
 		step("SetSpecValidator(nil)", func() { cdi.SetSpecValidator(nil) })
 	})
 	c.Floor("validator_steps", 40)
+	// mode 1c: Spec files that are fine one by one and define the same devices three and
+	// more times over, in one directory and across directories: loading and every query
+	// survive whatever the combination (a conflict is a state, not an accident)
+	c.RunCases("multi", c.pick(60, 1500), 0, func(cs *Case) {
+		r := cs.R
+		root := filepath.Join(c.Scratch, sanitize(cs.Name))
+		defer os.RemoveAll(root)
+		var dirs []string
+		for i := 0; i < 1+r.Intn(3); i++ {
+			d := filepath.Join(root, fmt.Sprintf("d%d", i))
+			must(os.MkdirAll(d, 0o755))
+			dirs = append(dirs, d)
+			for k := 0; k < 1+r.Intn(4); k++ {
+				devs := []string{"dev0", "dev1", "dev2"}[:1+r.Intn(3)]
+				body := ""
+				for j, dv := range devs {
+					if j > 0 {
+						body += ","
+					}
+					body += fmt.Sprintf(`{"name":"%s","containerEdits":{"env":["D=%d.%d"]}}`, dv, i, k)
+				}
+				must(os.WriteFile(filepath.Join(d, fmt.Sprintf("f%d.json", k)), []byte(`{"cdiVersion":"0.6.0","kind":"vendor.com/gpu","devices":[`+body+`]}`), 0o644))
+			}
+		}
+		if pv, st := guard(func() {
+			cache, _ := cdi.NewCache(cdi.WithSpecDirs(dirs...), cdi.WithAutoRefresh(false))
+			cache.Refresh()
+			for _, q := range []string{"vendor.com/gpu=dev0", "vendor.com/gpu=dev1", "vendor.com/gpu=dev2"} {
+				cache.GetDevice(q)
+				cache.InjectDevices(genOCI(r), q)
+			}
+			cache.ListDevices()
+			cache.GetErrors()
+			for _, v := range cache.ListVendors() {
+				for _, sp := range cache.GetVendorSpecs(v) {
+					cache.GetSpecErrors(sp)
+				}
+			}
+		}); pv != nil {
+			cs.Violation("panic", map[string]string{"shape": "several-definitions"}, fmt.Sprintf("loading and querying Spec files that define the same devices several times over panics: %v", pv), map[string]any{"stack": st})
+		}
+		c.Count("populations_with_repeated_definitions", 1)
+	})
 	// mode 2: the watcher goroutine of a child process
 	exe, _ := os.Executable()
 	nbatch := c.pick(4, 30)
